@@ -24,9 +24,47 @@
     `γ·L` is constant (`= Lγ_factor` from the start).
   * `pantr_radius_ge_min`: the trust radius is `≥ min_radius` at all times (for a non-NaN
     `min_radius`).
+
+  WHOLE-RUN statements, over the list of progress callbacks `(run …).callbacks` (oldest first; the
+  `Busy` callback `k` reports the iterate current at iteration `k` and `τ = 1 / 0` = candidate accepted /
+  rejected in iteration `k`; the last callback reports the final iterate), from the loop invariant of
+  `Proofs/PantrChain.lean`:
+  * `pantr_gamma_antitone_run`, `pantr_gammaL_const_run`, `pantr_callback_fields_run`,
+    `pantr_next_iterate_run` — no fuel hypothesis, every stop schedule, `ParamsOK` (positivity of
+    `Lγ_factor`, `L_min`, `L_max`);
+  * `pantr_reported_qub` (`FuelOK`, monotone stop flag): every reported iterate satisfies the quadratic
+    upper bound unless `L ≥ L_max` — or it is the final iterate of a solve whose last step-size loop a
+    visible stop request cut short;
+  * `pantr_descent_run`: the descent inequality between consecutive callbacks `a`, `b`
+    (`DescStep`): for an `a` of dimension `n` that passed the quadratic-upper-bound test,
+      rejected (`τ_a = 0`):  `φ_b ≤ φ_a − c_a‖p_a‖² + (1+|ψ_a|)·qub_tol`, `c_a = (1 − γ_a L_a)/(2γ_a)`,
+                             whatever step size the fallback's backtracking chose;
+      accepted (`τ_a = 1`):  `φ_b ≤ φ_p + (1+|φ_p|)·TR_tol − thr·c·(−q_model)` for some
+                             `φ_p ≤ φ_a − c_a‖p_a‖² + (1+|ψ_a|)·qub_tol` and `q_model < 0`, PROVIDED the
+                             candidate was tested with the step size it is reported with:
+                             `compute_ratio_using_new_stepsize`, or `γ_b = γ_a` (the property's
+                             "for trust-region steps: non-increase whenever the step size is unchanged").
+    Hypotheses (`DescHyp`): the SIZED prox contract `ProxContract.Sized n hval dom P.prox`
+    (discharged for the shipped box / box+ℓ1 step by `ProxContract.boxL1_sized`), ψ-oracle
+    consistency `∀ x, (P.psiGradPsi x).1 = (P.psi x).1` (`compute_FBS_step` re-evaluates `ψ(x̂ₖ)` with
+    `eval_ψ_grad_ψ` although `curr->ψx̂` came from `eval_ψ`), a sized gradient oracle
+    `∀ x, x.length = n → (P.psiGradPsi x).2.1.length = n`, and `ratio_approx_fbe_quadratic_model →
+    Lγ_factor < 1`.  Nothing is demanded of the direction provider: the size facts are premises on the
+    observable callback fields `a.it.x.length = n`, `a.it.gradPsi.length = n`.
+  * `pantr_descent_run_nonincrease` (`0 ≤ ratio_threshold_acceptable`: the model-decrease term dropped),
+    `pantr_descent_run_qub` (`FuelOK`, monotone flag: the premise "passed the test" replaced by
+    `L_a < L_max`).
+
+  Fuel: `pantr_reported_qub`, `pantr_reported_qub_busy`, `pantr_descent_run_qub` take `FuelOK pr N`
+  (`Proofs/PantrFuel.lean`); their `…_fuel` forms take `fuelOut = false` instead and hold verbatim at
+  any ordered-field carrier without parameter assumptions (the replay asserts `fuelOut = false` on
+  every recorded run).  The main loop's fuel `max_iter + 1` suffices unconditionally.
 -/
 import Alpaqa.Proofs.PantrOrd
+import Alpaqa.Proofs.PantrFuel
+import Alpaqa.Proofs.PantrChain
 import Alpaqa.Proofs.PantrExample
+import Alpaqa.Proofs.PantrExampleQ
 
 namespace Alpaqa.Props.C05_Pantr
 open Alpaqa Alpaqa.Pantr Alpaqa.Gen
@@ -36,6 +74,8 @@ variable {α D : Type} [Field α] [LinearOrder α] [IsStrictOrderedRing α] [Rea
 
 /-- The factor the acceptance threshold is multiplied with (`1` or `1 − Lγ_factor`). -/
 def ratioScale (pr : Params α) : α := if pr.ratioApproxFbe then 1 - pr.LgammaFactor else 1
+
+theorem ratioScale_eq (pr : Params α) : ratioScale pr = ratioScaleOf pr := rfl
 
 /-- `(1 + |φ|)·TR_tolerance_factor` -/
 def trMargin (pr : Params α) (i : Iterate α) : α := (1 + |i.fbe|) * pr.trTol
@@ -95,12 +135,15 @@ theorem pantr_fb_descent (pr : Params α) (i : Iterate α) (hγ : 0 < i.gamma)
     i.psixhat + i.hxhat ≤ i.fbe - (1 - i.gamma * i.L) / (2 * i.gamma) * i.pTp + qubMargin pr i :=
   fb_descent_of_qub pr.qubTol i.psix i.psixhat i.gradPsiTp i.L i.pTp i.hxhat i.gamma hγ h
 
-/-- **Every reported iterate satisfies the quadratic upper bound unless `L` reached `L_max`**
+/-- Fuel as a hypothesis (no parameter assumptions; the replay asserts `fuelOut = false` on every
+    recorded run).
+
+    **Every reported iterate satisfies the quadratic upper bound unless `L` reached `L_max`**
     (Busy callbacks and the final one) — with one exception since `backtrack_qub` polls the stop flag
     (C19): the iterate of the *final* callback when a stop request was visible at the final loop-head
     check (tick `ticks − 1`); that request may have cut the last step-size loop (initial, or in the
     last iteration) short.  For a stop flag that is never lowered. -/
-theorem pantr_reported_qub (co : Consts α) (P : Problem α) (dir : Direction D α) (d0 : D)
+theorem pantr_reported_qub_fuel (co : Consts α) (P : Problem α) (dir : Direction D α) (d0 : D)
     (pr : Params α) (stop : Nat → Bool) (hm : StopMono stop) (oot : Bool)
     (x0 y Sig errz0 gV : Vec α)
     (hfuel : (run co P dir d0 pr stop oot x0 y Sig errz0 gV).fuelOut = false) :
@@ -124,10 +167,10 @@ theorem pantr_reported_qub (co : Consts α) (P : Problem α) (dir : Direction D 
       · exact .inl h
     · exact .inr (.inr this)
 
-/-- Every iterate reported with status `Busy` — i.e. every iterate the solver went on from —
+/-- Fuel as a hypothesis.  Every iterate reported with status `Busy` — i.e. every iterate the solver went on from —
     satisfies the quadratic upper bound unless `L` reached `L_max`; so does the final one if no stop
     request was visible at the final loop-head check. -/
-theorem pantr_reported_qub_busy (co : Consts α) (P : Problem α) (dir : Direction D α) (d0 : D)
+theorem pantr_reported_qub_busy_fuel (co : Consts α) (P : Problem α) (dir : Direction D α) (d0 : D)
     (pr : Params α) (stop : Nat → Bool) (hm : StopMono stop) (oot : Bool)
     (x0 y Sig errz0 gV : Vec α)
     (hfuel : (run co P dir d0 pr stop oot x0 y Sig errz0 gV).fuelOut = false) :
@@ -135,12 +178,38 @@ theorem pantr_reported_qub_busy (co : Consts α) (P : Problem α) (dir : Directi
       (cb.status = .Busy ∨ stop ((run co P dir d0 pr stop oot x0 y Sig errz0 gV).ticks - 1) = false) →
       qubViolated pr cb.it = false ∨ pr.Lmax ≤ cb.it.L := by
   intro cb hmem hcond
-  rcases pantr_reported_qub co P dir d0 pr stop hm oot x0 y Sig errz0 gV hfuel cb hmem with h | h | h
+  rcases pantr_reported_qub_fuel co P dir d0 pr stop hm oot x0 y Sig errz0 gV hfuel cb hmem with h | h | h
   · exact .inl h
   · exact .inr h
   · rcases hcond with hb | hns
     · exact absurd hb h.1
     · rw [hns] at h; exact absurd h.2 (by decide)
+
+/-- **Every reported iterate satisfies the quadratic upper bound unless `L` reached `L_max`** (Busy
+    callbacks and the final one), under `FuelOK pr N` and for a stop flag that is never lowered — with
+    the one exception `backtrack_qub`'s stop poll creates (C19): the iterate of the *final* callback
+    when a stop request was visible at the final loop-head check (tick `ticks − 1`); that request may
+    have cut the last step-size loop (initial, or in the last iteration) short. -/
+theorem pantr_reported_qub (co : Consts α) (P : Problem α) (dir : Direction D α) (d0 : D)
+    (pr : Params α) (stop : Nat → Bool) (hm : StopMono stop) (oot : Bool)
+    (x0 y Sig errz0 gV : Vec α) (N : Nat) (hF : FuelOK pr N) :
+    ∀ cb ∈ (run co P dir d0 pr stop oot x0 y Sig errz0 gV).callbacks,
+      qubViolated pr cb.it = false ∨ pr.Lmax ≤ cb.it.L ∨
+      (cb.status ≠ .Busy ∧ stop ((run co P dir d0 pr stop oot x0 y Sig errz0 gV).ticks - 1) = true) :=
+  pantr_reported_qub_fuel co P dir d0 pr stop hm oot x0 y Sig errz0 gV
+    (pantr_fuel_suffices co P dir d0 pr stop oot x0 y Sig errz0 gV N hF)
+
+/-- Every iterate reported with status `Busy` — i.e. every iterate the solver went on from —
+    satisfies the quadratic upper bound unless `L` reached `L_max`; so does the final one if no stop
+    request was visible at the final loop-head check. -/
+theorem pantr_reported_qub_busy (co : Consts α) (P : Problem α) (dir : Direction D α) (d0 : D)
+    (pr : Params α) (stop : Nat → Bool) (hm : StopMono stop) (oot : Bool)
+    (x0 y Sig errz0 gV : Vec α) (N : Nat) (hF : FuelOK pr N) :
+    ∀ cb ∈ (run co P dir d0 pr stop oot x0 y Sig errz0 gV).callbacks,
+      (cb.status = .Busy ∨ stop ((run co P dir d0 pr stop oot x0 y Sig errz0 gV).ticks - 1) = false) →
+      qubViolated pr cb.it = false ∨ pr.Lmax ≤ cb.it.L :=
+  pantr_reported_qub_busy_fuel co P dir d0 pr stop hm oot x0 y Sig errz0 gV
+    (pantr_fuel_suffices co P dir d0 pr stop oot x0 y Sig errz0 gV N hF)
 
 /-- **One trust-region iteration, chained**: for a current iterate that satisfies the quadratic
     upper bound, an accepted candidate has
@@ -215,6 +284,161 @@ theorem pantr_radius_ge_min (co : Consts α) (P : Problem α) (dir : Direction D
   · rw [h1]; exact h
   · rw [h1]; exact updatedRadius_ge pr q rho s.Delta hb
 
+/-! ### The whole run, as seen through the progress callback -/
+
+/-- **The reported step size never increases** along the progress callbacks of a solve — every
+    problem, direction provider, stop schedule, budget; no fuel hypothesis. -/
+theorem pantr_gamma_antitone_run (co : Consts α) (P : Problem α) (dir : Direction D α) (d0 : D)
+    (pr : Params α) (hp : ParamsOK pr) (stop : Nat → Bool) (oot : Bool) (x0 y Sig errz0 gV : Vec α) :
+    List.IsChain (fun a b : Callback α => b.it.gamma ≤ a.it.gamma)
+      (run co P dir d0 pr stop oot x0 y Sig errz0 gV).callbacks :=
+  (run_callbacks_ok False 0 (fun _ => 0) (fun _ => True) co P dir d0 pr (fun h => h.elim) hp stop oot
+    x0 y Sig errz0 gV).1.imp (fun _ _ h => h.gamma_le)
+
+/-- **`γ·L` of every reported iterate equals `Lγ_factor`** (and `γ, L > 0`): the first step size is
+    `Lγ_factor / L`, every later change is `γ /= 2; L *= 2`. -/
+theorem pantr_gammaL_const_run (co : Consts α) (P : Problem α) (dir : Direction D α) (d0 : D)
+    (pr : Params α) (hp : ParamsOK pr) (stop : Nat → Bool) (oot : Bool) (x0 y Sig errz0 gV : Vec α) :
+    ∀ cb ∈ (run co P dir d0 pr stop oot x0 y Sig errz0 gV).callbacks,
+      cb.it.gamma * cb.it.L = pr.LgammaFactor ∧ 0 < cb.it.gamma ∧ 0 < cb.it.L := fun cb hcb =>
+  have h := ((run_callbacks_ok False 0 (fun _ => 0) (fun _ => True) co P dir d0 pr (fun h => h.elim) hp
+    stop oot x0 y Sig errz0 gV).2 cb hcb).gok
+  ⟨h.2.2, h.1, h.2.1⟩
+
+/-- What every callback reports is self-consistent: `φγ` is `pantr_fbe` of the reported
+    `ψ, h(x̂), ‖p‖², γ, ∇ψᵀp`; `‖p‖²`, `∇ψᵀp` are those of the reported `p`, `∇ψ`; `(h(x̂), x̂, p)` is the
+    prox oracle's answer at the reported `(γ, x, ∇ψ)`, `ψ(x̂)`, `ŷ` the ψ oracle's at `x̂`; `τ ∈ {0, 1}`. -/
+theorem pantr_callback_fields_run (co : Consts α) (P : Problem α) (dir : Direction D α) (d0 : D)
+    (pr : Params α) (hp : ParamsOK pr) (stop : Nat → Bool) (oot : Bool) (x0 y Sig errz0 gV : Vec α) :
+    ∀ cb ∈ (run co P dir d0 pr stop oot x0 y Sig errz0 gV).callbacks,
+      cb.fbe = pantr_fbe cb.it.psix cb.it.hxhat cb.it.pTp cb.it.gamma cb.it.gradPsiTp ∧
+      cb.it.pTp = sqNorm cb.it.p ∧ cb.it.gradPsiTp = dot cb.it.p cb.it.gradPsi ∧ Good P cb.it ∧
+      (cb.tau = 0 ∨ cb.tau = 1) := fun cb hcb =>
+  have h := (run_callbacks_ok False 0 (fun _ => 0) (fun _ => True) co P dir d0 pr (fun h => h.elim) hp
+    stop oot x0 y Sig errz0 gV).2 cb hcb
+  ⟨h.fbe, h.scal.1, h.scal.2, h.good, h.tau⟩
+
+/-- **Rejected ⇒ the forward-backward step is taken; accepted ⇒ the candidate `x̂ₖ + q`**, along the
+    whole run: for consecutive callbacks `a`, `b`: `a` is a `Busy` callback, and `b` reports
+    `x = x̂_a` if `τ_a = 0`, `x = x̂_a + q_a` if `τ_a = 1`. -/
+theorem pantr_next_iterate_run (co : Consts α) (P : Problem α) (dir : Direction D α) (d0 : D)
+    (pr : Params α) (hp : ParamsOK pr) (stop : Nat → Bool) (oot : Bool) (x0 y Sig errz0 gV : Vec α) :
+    List.IsChain (fun a b : Callback α => a.status = .Busy ∧ (a.tau = 0 → b.it.x = a.it.xhat) ∧
+        (a.tau = 1 → b.it.x = vadd a.it.xhat a.q))
+      (run co P dir d0 pr stop oot x0 y Sig errz0 gV).callbacks :=
+  (run_callbacks_ok False 0 (fun _ => 0) (fun _ => True) co P dir d0 pr (fun h => h.elim) hp stop oot
+    x0 y Sig errz0 gV).1.imp (fun _ _ h => ⟨h.busy, h.x_rej, h.x_acc⟩)
+
+/-- `φ_a − ((1 − γ_a L_a)/(2γ_a))·‖p_a‖² + (1 + |ψ_a|)·qub_tol`, from the fields callback `a` reports. -/
+def descBoundOf (pr : Params α) (a : Callback α) : α :=
+  a.fbe - (1 - a.it.gamma * a.it.L) / (2 * a.it.gamma) * a.it.pTp + qubMargin pr a.it
+
+/-- The descent relation between consecutive callbacks `a` (iteration `k`) and `b` (the next one), for
+    an `a` of dimension `n` that passed the quadratic-upper-bound test:
+    * rejected step (`τ_a = 0`): `φ_b ≤ φ_a − c_a‖p_a‖² + margin` — whatever step size the fallback's
+      backtracking chose;
+    * accepted step (`τ_a = 1`) tested with the step size it is reported with
+      (`compute_ratio_using_new_stepsize`, or `γ_b = γ_a`):
+      `φ_b ≤ φ_p + (1+|φ_p|)·TR_tol − thr·c·(−q_model)` with `φ_p ≤ φ_a − c_a‖p_a‖² + margin`,
+      `q_model < 0` (`φ_p` = envelope of the forward-backward point, `q_model` = the provider's model
+      value). -/
+def DescStep (pr : Params α) (n : Nat) (a b : Callback α) : Prop :=
+  a.it.x.length = n → a.it.gradPsi.length = n → qubViolated pr a.it = false →
+    (a.tau = 0 → b.fbe ≤ descBoundOf pr a) ∧
+    (a.tau = 1 → (pr.computeRatioUsingNewStepsize = true ∨ b.it.gamma = a.it.gamma) →
+      ∃ φp qm : α, qm < 0 ∧ φp ≤ descBoundOf pr a ∧
+        b.fbe ≤ φp + (1 + |φp|) * pr.trTol - pr.ratioThresholdAcceptable * ratioScale pr * (-qm))
+
+/-- **Descent of the envelope between consecutive callbacks of a solve** (`DescStep`), for every
+    direction provider, stop schedule and budget; no fuel hypothesis.  Hypotheses: `DescHyp` (sized prox
+    contract, ψ-oracle consistency, sized gradient oracle, `ratio_approx… → Lγ_factor < 1`) and
+    `ParamsOK`. -/
+theorem pantr_descent_run (n : Nat) (hval : Vec α → α) (dom : Vec α → Prop) (co : Consts α)
+    (P : Problem α) (dir : Direction D α) (d0 : D) (pr : Params α) (hH : DescHyp n hval dom P pr)
+    (hp : ParamsOK pr) (stop : Nat → Bool) (oot : Bool) (x0 y Sig errz0 gV : Vec α) :
+    List.IsChain (DescStep pr n) (run co P dir d0 pr stop oot x0 y Sig errz0 gV).callbacks := by
+  have h := run_callbacks_ok True n hval dom co P dir d0 pr (fun _ => hH) hp stop oot x0 y Sig errz0 gV
+  refine h.1.imp_of_mem_imp (fun a b _ hb hs => ?_)
+  have hd := hs.desc trivial
+  have hfb := (h.2 b hb).fbe
+  intro h1 h2 h3
+  have := hd h1 h2 h3
+  rw [hfb]
+  exact this
+
+/-- … with a non-negative acceptance threshold the model-decrease term can be dropped: an accepted
+    step that is reported with the step size it was tested with increases the envelope by at most the
+    documented margin over `φ_p ≤ φ_a − c_a‖p_a‖² + margin`; in particular (`TR_tol = qub_tol = 0`,
+    `γ_a L_a ≤ 1`) `φ_b ≤ φ_a`: "non-increase whenever the step size is unchanged". -/
+theorem pantr_descent_run_nonincrease (n : Nat) (hval : Vec α → α) (dom : Vec α → Prop) (co : Consts α)
+    (P : Problem α) (dir : Direction D α) (d0 : D) (pr : Params α) (hH : DescHyp n hval dom P pr)
+    (hp : ParamsOK pr) (hthr : 0 ≤ pr.ratioThresholdAcceptable) (stop : Nat → Bool) (oot : Bool)
+    (x0 y Sig errz0 gV : Vec α) :
+    List.IsChain (fun a b : Callback α =>
+        a.it.x.length = n → a.it.gradPsi.length = n → qubViolated pr a.it = false →
+        (a.tau = 0 → b.fbe ≤ descBoundOf pr a) ∧
+        (a.tau = 1 → (pr.computeRatioUsingNewStepsize = true ∨ b.it.gamma = a.it.gamma) →
+          ∃ φp : α, φp ≤ descBoundOf pr a ∧ b.fbe ≤ φp + (1 + |φp|) * pr.trTol))
+      (run co P dir d0 pr stop oot x0 y Sig errz0 gV).callbacks := by
+  refine (pantr_descent_run n hval dom co P dir d0 pr hH hp stop oot x0 y Sig errz0 gV).imp
+    (fun a b h h1 h2 h3 => ?_)
+  refine ⟨(h h1 h2 h3).1, fun ht hc => ?_⟩
+  obtain ⟨φp, qm, hqm, h4, h5⟩ := (h h1 h2 h3).2 ht hc
+  have hs : 0 ≤ ratioScale pr := by
+    unfold ratioScale; split_ifs with ha
+    · exact (sub_pos.mpr (hH.approx ha)).le
+    · exact zero_le_one
+  have : 0 ≤ pr.ratioThresholdAcceptable * ratioScale pr * (-qm) :=
+    mul_nonneg (mul_nonneg hthr hs) (neg_pos.mpr hqm).le
+  exact ⟨φp, h4, by linarith⟩
+
+/-- Fuel as a hypothesis.  `pantr_descent_run` combined with `pantr_reported_qub_fuel`: for consecutive
+    callbacks the premise "`a` passed the quadratic-upper-bound test" can be replaced by `L_a < L_max`
+    (every `Busy` iterate below `L_max` did pass it). -/
+theorem pantr_descent_run_qub_fuel (n : Nat) (hval : Vec α → α) (dom : Vec α → Prop) (co : Consts α)
+    (P : Problem α) (dir : Direction D α) (d0 : D) (pr : Params α) (hH : DescHyp n hval dom P pr)
+    (hp : ParamsOK pr) (stop : Nat → Bool) (hm : StopMono stop) (oot : Bool)
+    (x0 y Sig errz0 gV : Vec α)
+    (hfuel : (run co P dir d0 pr stop oot x0 y Sig errz0 gV).fuelOut = false) :
+    List.IsChain (fun a b : Callback α =>
+        a.it.x.length = n → a.it.gradPsi.length = n → a.it.L < pr.Lmax →
+        (a.tau = 0 → b.fbe ≤ descBoundOf pr a) ∧
+        (a.tau = 1 → (pr.computeRatioUsingNewStepsize = true ∨ b.it.gamma = a.it.gamma) →
+          ∃ φp qm : α, qm < 0 ∧ φp ≤ descBoundOf pr a ∧
+            b.fbe ≤ φp + (1 + |φp|) * pr.trTol - pr.ratioThresholdAcceptable * ratioScale pr * (-qm)))
+      (run co P dir d0 pr stop oot x0 y Sig errz0 gV).callbacks := by
+  have hq := pantr_reported_qub_busy_fuel co P dir d0 pr stop hm oot x0 y Sig errz0 gV hfuel
+  have hb := pantr_next_iterate_run co P dir d0 pr hp stop oot x0 y Sig errz0 gV
+  have hd := pantr_descent_run n hval dom co P dir d0 pr hH hp stop oot x0 y Sig errz0 gV
+  have hboth : List.IsChain (fun a b : Callback α => a.status = .Busy ∧ DescStep pr n a b)
+      (run co P dir d0 pr stop oot x0 y Sig errz0 gV).callbacks := by
+    generalize (run co P dir d0 pr stop oot x0 y Sig errz0 gV).callbacks = l at hb hd
+    induction l with
+    | nil => exact List.isChain_nil
+    | cons a l ih =>
+      rw [List.isChain_cons] at hb hd ⊢
+      exact ⟨fun y hy => ⟨(hb.1 y hy).1, hd.1 y hy⟩, ih hb.2 hd.2⟩
+  refine hboth.imp_of_mem_imp (fun a b ha _ h h1 h2 h3 => ?_)
+  rcases hq a ha (.inl h.1) with h4 | h4
+  · exact h.2 h1 h2 h4
+  · exact absurd h3 (not_lt.mpr h4)
+
+/-- **Descent between consecutive callbacks for every iterate below `L_max`**, under `FuelOK pr N`,
+    for a stop flag that is never lowered. -/
+theorem pantr_descent_run_qub (n : Nat) (hval : Vec α → α) (dom : Vec α → Prop) (co : Consts α)
+    (P : Problem α) (dir : Direction D α) (d0 : D) (pr : Params α) (hH : DescHyp n hval dom P pr)
+    (hp : ParamsOK pr) (stop : Nat → Bool) (hm : StopMono stop) (oot : Bool)
+    (x0 y Sig errz0 gV : Vec α) (N : Nat) (hF : FuelOK pr N) :
+    List.IsChain (fun a b : Callback α =>
+        a.it.x.length = n → a.it.gradPsi.length = n → a.it.L < pr.Lmax →
+        (a.tau = 0 → b.fbe ≤ descBoundOf pr a) ∧
+        (a.tau = 1 → (pr.computeRatioUsingNewStepsize = true ∨ b.it.gamma = a.it.gamma) →
+          ∃ φp qm : α, qm < 0 ∧ φp ≤ descBoundOf pr a ∧
+            b.fbe ≤ φp + (1 + |φp|) * pr.trTol - pr.ratioThresholdAcceptable * ratioScale pr * (-qm)))
+      (run co P dir d0 pr stop oot x0 y Sig errz0 gV).callbacks :=
+  pantr_descent_run_qub_fuel n hval dom co P dir d0 pr hH hp stop hm oot x0 y Sig errz0 gV
+    (pantr_fuel_suffices co P dir d0 pr stop oot x0 y Sig errz0 gV N hF)
+
 /-! ### Non-vacuity (over `ℚ`) -/
 section examples
 local instance : RealLike ℚ := ⟨id, fun _ => false, fun _ => true⟩
@@ -242,5 +466,69 @@ example : pantr_updatedRadius (9/10 : ℚ) 1 2 (4/5) (1/5) (5/2) (999/1000) (7/2
 example : ((Alpaqa.Pantr.Example.solve 3 false (-1) 0).callbacks.map (·.tau)) = [1, 1] := by decide
 
 end examples
+
+/-! ### Non-vacuity of the whole-run theorems (`Proofs/PantrExampleQ.lean`: one accepted and one
+    rejected trust-region step, one initial step-size halving; the sized prox contract is proved for
+    the example's 1-D box step in `prox_sized`) -/
+section examplesQ
+open Alpaqa.Pantr.ExampleQ
+
+/-- the run: callbacks `k = 0` (accepted, `τ = 1`), `k = 1` (rejected, `τ = 0`), final `k = 2`; every
+    reported iterate is a 1-vector with a 1-vector gradient, passed the quadratic upper bound test and
+    has `L = 1 < L_max = 100`; the step size is `1/2` throughout (one initial halving from `1`);
+    envelope values `4 > 1/4 > 1/16` against the bounds `φ − c‖p‖² + margin = 2, 1/8` -/
+example : (rq none).callbacks.map (fun c => (c.k, c.tau, c.it.x, c.it.gradPsi, qubViolated prq c.it)) =
+    [(0, 1, [4], [4], false), (1, 0, [1], [1], false), (2, 0, [1/2], [1/2], false)] ∧
+    (rq none).callbacks.map (fun c => (c.it.gamma, c.it.L, c.fbe, descBoundOf prq c)) =
+    [(1/2, 1, 4, 2), (1/2, 1, 1/4, 1/8), (1/2, 1, 1/16, 1/32)] ∧
+    (rq none).stats.stepsizeBacktracks = 1 ∧ (rq none).fuelOut = false := by decide +kernel
+
+example : StopMono (stopAt none) := fun _ _ _ h => h
+example : StopMono (stopAt (some 6)) := by
+  intro a b hab h; simp only [stopAt, decide_eq_true_eq] at h ⊢; omega
+
+example : List.IsChain (fun a b : Callback ℚ => b.it.gamma ≤ a.it.gamma) (rq none).callbacks :=
+  pantr_gamma_antitone_run coq Pq dirq 0 prq paramsOK (stopAt none) false [4] [5] [2] [7] [0]
+example : ∀ cb ∈ (rq none).callbacks,
+    cb.it.gamma * cb.it.L = prq.LgammaFactor ∧ 0 < cb.it.gamma ∧ 0 < cb.it.L :=
+  pantr_gammaL_const_run coq Pq dirq 0 prq paramsOK (stopAt none) false [4] [5] [2] [7] [0]
+example : ∀ cb ∈ (rq none).callbacks,
+    cb.fbe = pantr_fbe cb.it.psix cb.it.hxhat cb.it.pTp cb.it.gamma cb.it.gradPsiTp ∧
+    cb.it.pTp = sqNorm cb.it.p ∧ cb.it.gradPsiTp = dot cb.it.p cb.it.gradPsi ∧ Good Pq cb.it ∧
+    (cb.tau = 0 ∨ cb.tau = 1) :=
+  pantr_callback_fields_run coq Pq dirq 0 prq paramsOK (stopAt none) false [4] [5] [2] [7] [0]
+example : List.IsChain (fun a b : Callback ℚ => a.status = .Busy ∧ (a.tau = 0 → b.it.x = a.it.xhat) ∧
+    (a.tau = 1 → b.it.x = vadd a.it.xhat a.q)) (rq none).callbacks :=
+  pantr_next_iterate_run coq Pq dirq 0 prq paramsOK (stopAt none) false [4] [5] [2] [7] [0]
+example : ∀ cb ∈ (rq (some 6)).callbacks, qubViolated prq cb.it = false ∨ prq.Lmax ≤ cb.it.L ∨
+    (cb.status ≠ .Busy ∧ stopAt (some 6) ((rq (some 6)).ticks - 1) = true) :=
+  pantr_reported_qub coq Pq dirq 0 prq (stopAt (some 6))
+    (by intro a b hab h; simp only [stopAt, decide_eq_true_eq] at h ⊢; omega) false [4] [5] [2] [7] [0] 8 fuelOK
+example : ∀ cb ∈ (rq none).callbacks,
+    (cb.status = .Busy ∨ stopAt none ((rq none).ticks - 1) = false) →
+    qubViolated prq cb.it = false ∨ prq.Lmax ≤ cb.it.L :=
+  pantr_reported_qub_busy coq Pq dirq 0 prq (stopAt none) (fun _ _ _ h => h) false [4] [5] [2] [7] [0] 8 fuelOK
+/-- the descent chain on the run with an accepted and a rejected step -/
+example : List.IsChain (DescStep prq 1) (rq none).callbacks :=
+  pantr_descent_run 1 (fun _ => 0) domq coq Pq dirq 0 prq descHyp paramsOK (stopAt none) false
+    [4] [5] [2] [7] [0]
+example : List.IsChain (fun a b : Callback ℚ =>
+    a.it.x.length = 1 → a.it.gradPsi.length = 1 → qubViolated prq a.it = false →
+    (a.tau = 0 → b.fbe ≤ descBoundOf prq a) ∧
+    (a.tau = 1 → (prq.computeRatioUsingNewStepsize = true ∨ b.it.gamma = a.it.gamma) →
+      ∃ φp : ℚ, φp ≤ descBoundOf prq a ∧ b.fbe ≤ φp + (1 + |φp|) * prq.trTol)) (rq none).callbacks :=
+  pantr_descent_run_nonincrease 1 (fun _ => 0) domq coq Pq dirq 0 prq descHyp paramsOK
+    (by norm_num [prq]) (stopAt none) false [4] [5] [2] [7] [0]
+example : List.IsChain (fun a b : Callback ℚ =>
+    a.it.x.length = 1 → a.it.gradPsi.length = 1 → a.it.L < prq.Lmax →
+    (a.tau = 0 → b.fbe ≤ descBoundOf prq a) ∧
+    (a.tau = 1 → (prq.computeRatioUsingNewStepsize = true ∨ b.it.gamma = a.it.gamma) →
+      ∃ φp qm : ℚ, qm < 0 ∧ φp ≤ descBoundOf prq a ∧
+        b.fbe ≤ φp + (1 + |φp|) * prq.trTol - prq.ratioThresholdAcceptable * ratioScale prq * (-qm)))
+    (rq none).callbacks :=
+  pantr_descent_run_qub 1 (fun _ => 0) domq coq Pq dirq 0 prq descHyp paramsOK (stopAt none)
+    (fun _ _ _ h => h) false [4] [5] [2] [7] [0] 8 fuelOK
+
+end examplesQ
 
 end Alpaqa.Props.C05_Pantr
